@@ -193,3 +193,27 @@ func init() {
 	}
 	externals["(github.com/cosmos/cosmos-sdk/types.Context).TransientStore"] = externals["(github.com/cosmos/cosmos-sdk/types.Context).KVStore"]
 }
+
+func init() {
+	externals[rtPath+".UnmarshalInterfaceOpaque"] = func(fr *frame, args []value) value {
+		bz := args[0].([]value)
+		dst := args[1].(iface)
+		if len(bz) != 1 {
+			return false
+		}
+		b, ok := bz[0].(blob)
+		if !ok {
+			return false
+		}
+		dp := dst.v.(*value)
+		want := mustDeref(dst.t)
+		it, ok := want.Underlying().(*types.Interface)
+		if !ok || !types.Implements(b.t, it) {
+			return false
+		}
+		np := new(value)
+		*np = deepCopy(b.v, map[*value]*value{})
+		*dp = iface{t: b.t, v: np}
+		return true
+	}
+}
